@@ -59,7 +59,10 @@ type Failure struct {
 	Msg string `json:"msg"`
 }
 
-// Choose implements vrt.Chooser.
+// Choose implements vrt.Chooser. It runs on whichever goroutine holds the baton, hence norace and
+// (in race mode) a preallocated point list.
+//
+//go:norace
 func (x *Exec) Choose(kind vrt.Kind, n int, preemptive bool) int {
 	i := len(x.points)
 	c := 0
@@ -192,6 +195,9 @@ func RunOnce(sc *Scenario, prefix []int, trace bool) (*Exec, *vrt.Result) {
 
 func runOnce(sc *Scenario, prefix []int, trace bool, visit func(uint64) bool) (*Exec, *vrt.Result) {
 	x := &Exec{prefix: prefix, visit: visit}
+	if vrt.RaceMode {
+		x.points = make([]Point, 0, 1<<14)
+	}
 	cfg := sc.Cfg
 	cfg.Trace = trace
 	if sc.OnQuiescent != nil {
